@@ -25,3 +25,4 @@ def run(repo, res, tier):
     multidict.rule_m4_eq(repo, res)
     multidict.rule_p8(repo, res)
     multidict.rule_p9(repo, res)
+    multidict.rule_p10(repo, res)
